@@ -12,7 +12,7 @@ PROP = "C05"
 KEYS = {
     "name": "str", "path": "str", "ext": "str",
     "size": "num", "uid": "num", "gid": "num", "hardlinks": "num", "inode": "num", "blocks": "num", "line_count": "num", "length(name)": "num", "size + 1": "num",
-    "modified": "date",
+    "modified": "date", "created": "date",
     "day(modified)": "num", "month(modified)": "num", "year(modified)": "num",
 }
 
@@ -51,6 +51,12 @@ def gen_stat_overlay(rng, world):
             kv["nlink"] = rng.choice([1, 2, 9, 10, 11, 100])
         if rng.random() < 0.5:
             kv["blocks"] = rng.choice([0, 8, 16, 80, 96, 104, 1000])
+        if rng.random() < 0.6:
+            # birth times: an answer some file systems give and others do not (then the `created` column is empty)
+            if rng.random() < 0.3:
+                kv["nobtime"] = 1
+            else:
+                kv["btime"] = (1_500_000_000 + rng.choice([0, 1, 86400, 86400 * 40, rng.randrange(0, 10 ** 8)])) * 10 ** 9
         if rng.random() < 0.2:
             # 64-bit answers that differ by less than one f64 ulp
             kv["size"] = rng.choice([2 ** 53, 2 ** 53 + 1, 2 ** 53 + 2, 2 ** 53 + 3, 2 ** 60 + 1, 2 ** 60 + 2, 2 ** 62 + 5, 2 ** 62 + 6])
@@ -86,6 +92,8 @@ def order_clause(keys, select_cols, rng_positional):
 
 def keyval(kind, raw):
     """Typed key value from fselect's own printed value; None when not interpretable (no constraint then)."""
+    if kind == "date" and raw == b"":
+        return None  # no birth time on this file system: no stated position
     if kind == "num":
         try:
             return int(raw)  # exact: 2^53 and 2^53 + 1 are different keys
